@@ -117,14 +117,18 @@ func BuildClassList(classes ...any) (string, error) {
 		case []string:
 			classList = append(classList, class...)
 		case map[string]bool:
+			var keys []string
 			for cls, ok := range class {
 				if ok {
 					if cls == "" {
 						continue
 					}
-					classList = append(classList, cls)
+					keys = append(keys, cls)
 				}
 			}
+			// for stable ordering of the classes
+			slices.Sort(keys)
+			classList = append(classList, keys...)
 		default:
 			return "", fmt.Errorf("goht: invalid class type: %T", class)
 		}
